@@ -58,14 +58,26 @@ def _bounded_block(p, v):
         base = base[1]
     if base[0] == 'obj':
         el = p.state.objs.get(base, {}).get('$elems')
-        return el is not None and all(x == T.C(b'') for x in el)
+        if el is None:
+            return False
+        # a list filled by a loop: every value appended to it anywhere on
+        # the path must be a slice of the bounded width (or b'')
+        apps = [e.value for e in p.events
+                if e.kind == 'append' and e.get('container') == base]
+        lits = [x for x in el if x[0] != 'splat']
+        return all(x == T.C(b'') or _bounded_slice(x) for x in lits) and \
+            all(x == T.C(b'') or _bounded_slice(x) for x in apps)
     if base[0] == 'comp':
-        elt = base[1]
-        # encoded_headers[i:i + self.max_outbound_frame_size]
-        if elt[0] == 'slice' and elt[2] is not None and elt[3] is not None:
-            width = T.add(elt[3], elt[2], -1)
-            return width is not None and \
-                cm.show0(width) == 'self.max_outbound_frame_size'
+        return _bounded_slice(base[1])
+    return False
+
+
+def _bounded_slice(elt):
+    # encoded_headers[i:i + self.max_outbound_frame_size]
+    if elt[0] == 'slice' and elt[2] is not None and elt[3] is not None:
+        width = T.add(elt[3], elt[2], -1)
+        return width is not None and \
+            cm.show0(width) == 'self.max_outbound_frame_size'
     return False
 
 
